@@ -191,6 +191,19 @@ fn gen(rng: &mut Rng, tier: Tier) -> Vec<Case> {
         if !valid(&c) { c.ty = if signed { 0 } else { 1 }; }
         out.push(Case::new(if small { "boundary" } else { "random" }, enc(&c)));
     }
+    if tier == Tier::Thorough {
+        // LARGE region lists: more than 2^16 regions; the driver evaluates only the spec on these
+        for (n, ty) in [(9_000usize, 0u64), (70_000, 1), (66_000, 4)] {
+            let regions: Vec<Rec> = (0..n as u64).map(|i| Rec::new(if i % 3 == 0 { "chrA" } else { "chrB" }, 10 * i, 10 * i + rng.range(1, 14))).collect();
+            let mut ops = vec![];
+            for k in 0..6u64 {
+                let r = if k < 2 { regions[n - 1 - k as usize].clone() } else { rng.pick(&regions).clone() };
+                ops.push(Op::Tag(Rec::new(&r.chrom, r.start.saturating_sub(rng.below(40)), r.end + rng.below(40)), 1 + k as i64));
+                if k == 3 { ops.push(Op::At(n - 1, 5)); ops.push(Op::At(65_536.min(n - 1), 7)); }
+            }
+            out.push(Case::new("large", enc(&C { ty, regions, ops })));
+        }
+    }
     add_flavours(rng, &mut out);
     out
 }
